@@ -400,124 +400,124 @@ theorem capOf_valid (i : Inp K) (kind : Kind) (x : Var → K) (hw : WellFormed i
   obtain ⟨⟨hS0, hS⟩, ⟨hC0, hC⟩, ⟨hM0, hM⟩, ⟨hP0, hP⟩, ⟨hZ0, hZ⟩, ⟨hW0, hW⟩, -, -, hminD, hhl, -, hgr⟩ := hw
   unfold capOf at hu
   cases k <;> simp only at hu
-    · -- sfStart
-      split_ifs at hu with hc
-      · obtain rfl := Option.some.inj hu
-        simp only [Bool.and_eq_true, Bool.or_eq_true, decide_eq_true_eq] at hc
-        exact sfStart_le h hc.1 hS hm hc.2
-    · -- sfEnd
-      split_ifs at hu with hc
-      · obtain rfl := Option.some.inj hu
-        simp only [Bool.and_eq_true, Bool.or_eq_true, decide_eq_true_eq] at hc
-        exact sfEnd_le h hc.1 hS hm hc.2
-    · split_ifs at hu with hoff hreg
-      · obtain rfl := Option.some.inj hu
-        have hon : i.addStored = true := by simpa using hoff
-        exact (stored_parts_le h hon hS0 hS hm).1
-      · obtain rfl := Option.some.inj hu
-        have hon : i.addStored = true := by simpa using hoff
-        simp only [Bool.or_eq_true, decide_eq_true_eq, not_or, Bool.not_eq_true, not_le] at hreg
-        exact (stored_vars_zero h hon hreg.1 hm hreg.2).1.le
-    · split_ifs at hu with hoff hreg
-      · obtain rfl := Option.some.inj hu
-        have hon : i.addStored = true := by simpa using hoff
-        exact (stored_parts_le h hon hS0 hS hm).2.1
-      · obtain rfl := Option.some.inj hu
-        have hon : i.addStored = true := by simpa using hoff
-        simp only [Bool.or_eq_true, decide_eq_true_eq, not_or, Bool.not_eq_true, not_le] at hreg
-        exact (stored_vars_zero h hon hreg.1 hm hreg.2).2.1.le
-    · split_ifs at hu with hoff hreg
-      · obtain rfl := Option.some.inj hu
-        have hon : i.addStored = true := by simpa using hoff
-        exact (stored_parts_le h hon hS0 hS hm).2.2
-      · obtain rfl := Option.some.inj hu
-        have hon : i.addStored = true := by simpa using hoff
-        simp only [Bool.or_eq_true, decide_eq_true_eq, not_or, Bool.not_eq_true, not_le] at hreg
-        exact (stored_vars_zero h hon hreg.1 hm hreg.2).2.2.le
-    · split_ifs at hu with hon
-      · obtain rfl := Option.some.inj hu
-        exact (scp_vars_le h hon hP0 hP hm).1
-    · split_ifs at hu with hon
-      · obtain rfl := Option.some.inj hu
-        exact (scp_vars_le h hon hP0 hP hm).2.1
-    · split_ifs at hu with hon
-      · obtain rfl := Option.some.inj hu
-        exact (scp_vars_le h hon hP0 hP hm).2.2
-    · split_ifs at hu with hon
-      · obtain rfl := Option.some.inj hu
-        exact (cs_vars_le h hon hZ0 hZ hm).1
-    · split_ifs at hu with hon
-      · obtain rfl := Option.some.inj hu
-        exact (cs_vars_le h hon hZ0 hZ hm).2.1
-    · split_ifs at hu with hon
-      · obtain rfl := Option.some.inj hu
-        exact (cs_vars_le h hon hZ0 hZ hm).2.2
-    · split_ifs at hu with hc
-      · obtain rfl := Option.some.inj hu
-        simp only [Bool.and_eq_true] at hc
-        exact (meat_vars_le h hc.1 hc.2 hM0 hM hm).1
-    · split_ifs at hu with hc
-      · obtain rfl := Option.some.inj hu
-        simp only [Bool.and_eq_true] at hc
-        exact (meat_vars_le h hc.1 hc.2 hM0 hM hm).2.1
-    · -- meatEaten
-      split_ifs at hu with hoff hs
-      · obtain rfl := Option.some.inj hu
-        have hon : i.addMeat = true := by simpa using hoff
-        exact (meat_vars_le h hon hs hM0 hM hm).2.2
-      · obtain rfl := Option.some.inj hu
-        have hon : i.addMeat = true := by simpa using hoff
-        have hs' : i.storeBetweenYears = false := by simpa using hs
-        exact meatEaten_le_slaughtered h hon hs' hM0 hM hm
-    · split_ifs at hu with hon
-      · obtain rfl := Option.some.inj hu
-        exact (crop_vars_le h hon hC0 hC hm).1
-    · split_ifs at hu with hon
-      · obtain rfl := Option.some.inj hu
-        exact (crop_vars_le h hon hC0 hC hm).2.1
-    · split_ifs at hu with hon
-      · obtain rfl := Option.some.inj hu
-        exact (crop_vars_le h hon hC0 hC hm).2.2.1
-    · split_ifs at hu with hon
-      · obtain rfl := Option.some.inj hu
-        exact (crop_vars_le h hon hC0 hC hm).2.2.2.1
-    · split_ifs at hu with hon
-      · obtain rfl := Option.some.inj hu
-        exact (crop_vars_le h hon hC0 hC hm).2.2.2.2
-    · -- swWet
-      split_ifs at hu with hon
-      · obtain rfl := Option.some.inj hu
-        exact (seaweed_bounds h hon hm).2.1
-    · split_ifs at hu with hoff hm0
-      · obtain rfl := Option.some.inj hu
-        have hon : i.addSeaweed = true := by simpa using hoff
-        subst hm0
-        exact (seaweed_month_zero h hon hm).2.2.1.le
-      · obtain rfl := Option.some.inj hu
-        have hon : i.addSeaweed = true := by simpa using hoff
-        exact (seaweed_harvest_vars_le h hon hW0 hW hminD hhl (hgr m hm) hm hm0).1
-    · split_ifs at hu with hoff hm0
-      · obtain rfl := Option.some.inj hu
-        have hon : i.addSeaweed = true := by simpa using hoff
-        subst hm0
-        exact (seaweed_month_zero h hon hm).2.2.2.1.le
-      · obtain rfl := Option.some.inj hu
-        have hon : i.addSeaweed = true := by simpa using hoff
-        exact (seaweed_harvest_vars_le h hon hW0 hW hminD hhl (hgr m hm) hm hm0).2.1
-    · split_ifs at hu with hoff hm0
-      · obtain rfl := Option.some.inj hu
-        have hon : i.addSeaweed = true := by simpa using hoff
-        subst hm0
-        exact (seaweed_month_zero h hon hm).2.2.2.2.le
-      · obtain rfl := Option.some.inj hu
-        have hon : i.addSeaweed = true := by simpa using hoff
-        exact (seaweed_harvest_vars_le h hon hW0 hW hminD hhl (hgr m hm) hm hm0).2.2
-    · -- usedArea
-      split_ifs at hu with hon
-      · obtain rfl := Option.some.inj hu
-        exact (seaweed_bounds h hon hm).2.2.2
-    · -- consumedKcals
-      simp only [reduceCtorEq] at hu
+  · -- sfStart
+    split_ifs at hu with hc
+    · obtain rfl := Option.some.inj hu
+      simp only [Bool.and_eq_true, Bool.or_eq_true, decide_eq_true_eq] at hc
+      exact sfStart_le h hc.1 hS hm hc.2
+  · -- sfEnd
+    split_ifs at hu with hc
+    · obtain rfl := Option.some.inj hu
+      simp only [Bool.and_eq_true, Bool.or_eq_true, decide_eq_true_eq] at hc
+      exact sfEnd_le h hc.1 hS hm hc.2
+  · split_ifs at hu with hoff hreg
+    · obtain rfl := Option.some.inj hu
+      have hon : i.addStored = true := by simpa using hoff
+      exact (stored_parts_le h hon hS0 hS hm).1
+    · obtain rfl := Option.some.inj hu
+      have hon : i.addStored = true := by simpa using hoff
+      simp only [Bool.or_eq_true, decide_eq_true_eq, not_or, Bool.not_eq_true, not_le] at hreg
+      exact (stored_vars_zero h hon hreg.1 hm hreg.2).1.le
+  · split_ifs at hu with hoff hreg
+    · obtain rfl := Option.some.inj hu
+      have hon : i.addStored = true := by simpa using hoff
+      exact (stored_parts_le h hon hS0 hS hm).2.1
+    · obtain rfl := Option.some.inj hu
+      have hon : i.addStored = true := by simpa using hoff
+      simp only [Bool.or_eq_true, decide_eq_true_eq, not_or, Bool.not_eq_true, not_le] at hreg
+      exact (stored_vars_zero h hon hreg.1 hm hreg.2).2.1.le
+  · split_ifs at hu with hoff hreg
+    · obtain rfl := Option.some.inj hu
+      have hon : i.addStored = true := by simpa using hoff
+      exact (stored_parts_le h hon hS0 hS hm).2.2
+    · obtain rfl := Option.some.inj hu
+      have hon : i.addStored = true := by simpa using hoff
+      simp only [Bool.or_eq_true, decide_eq_true_eq, not_or, Bool.not_eq_true, not_le] at hreg
+      exact (stored_vars_zero h hon hreg.1 hm hreg.2).2.2.le
+  · split_ifs at hu with hon
+    · obtain rfl := Option.some.inj hu
+      exact (scp_vars_le h hon hP0 hP hm).1
+  · split_ifs at hu with hon
+    · obtain rfl := Option.some.inj hu
+      exact (scp_vars_le h hon hP0 hP hm).2.1
+  · split_ifs at hu with hon
+    · obtain rfl := Option.some.inj hu
+      exact (scp_vars_le h hon hP0 hP hm).2.2
+  · split_ifs at hu with hon
+    · obtain rfl := Option.some.inj hu
+      exact (cs_vars_le h hon hZ0 hZ hm).1
+  · split_ifs at hu with hon
+    · obtain rfl := Option.some.inj hu
+      exact (cs_vars_le h hon hZ0 hZ hm).2.1
+  · split_ifs at hu with hon
+    · obtain rfl := Option.some.inj hu
+      exact (cs_vars_le h hon hZ0 hZ hm).2.2
+  · split_ifs at hu with hc
+    · obtain rfl := Option.some.inj hu
+      simp only [Bool.and_eq_true] at hc
+      exact (meat_vars_le h hc.1 hc.2 hM0 hM hm).1
+  · split_ifs at hu with hc
+    · obtain rfl := Option.some.inj hu
+      simp only [Bool.and_eq_true] at hc
+      exact (meat_vars_le h hc.1 hc.2 hM0 hM hm).2.1
+  · -- meatEaten
+    split_ifs at hu with hoff hs
+    · obtain rfl := Option.some.inj hu
+      have hon : i.addMeat = true := by simpa using hoff
+      exact (meat_vars_le h hon hs hM0 hM hm).2.2
+    · obtain rfl := Option.some.inj hu
+      have hon : i.addMeat = true := by simpa using hoff
+      have hs' : i.storeBetweenYears = false := by simpa using hs
+      exact meatEaten_le_slaughtered h hon hs' hM0 hM hm
+  · split_ifs at hu with hon
+    · obtain rfl := Option.some.inj hu
+      exact (crop_vars_le h hon hC0 hC hm).1
+  · split_ifs at hu with hon
+    · obtain rfl := Option.some.inj hu
+      exact (crop_vars_le h hon hC0 hC hm).2.1
+  · split_ifs at hu with hon
+    · obtain rfl := Option.some.inj hu
+      exact (crop_vars_le h hon hC0 hC hm).2.2.1
+  · split_ifs at hu with hon
+    · obtain rfl := Option.some.inj hu
+      exact (crop_vars_le h hon hC0 hC hm).2.2.2.1
+  · split_ifs at hu with hon
+    · obtain rfl := Option.some.inj hu
+      exact (crop_vars_le h hon hC0 hC hm).2.2.2.2
+  · -- swWet
+    split_ifs at hu with hon
+    · obtain rfl := Option.some.inj hu
+      exact (seaweed_bounds h hon hm).2.1
+  · split_ifs at hu with hoff hm0
+    · obtain rfl := Option.some.inj hu
+      have hon : i.addSeaweed = true := by simpa using hoff
+      subst hm0
+      exact (seaweed_month_zero h hon hm).2.2.1.le
+    · obtain rfl := Option.some.inj hu
+      have hon : i.addSeaweed = true := by simpa using hoff
+      exact (seaweed_harvest_vars_le h hon hW0 hW hminD hhl (hgr m hm) hm hm0).1
+  · split_ifs at hu with hoff hm0
+    · obtain rfl := Option.some.inj hu
+      have hon : i.addSeaweed = true := by simpa using hoff
+      subst hm0
+      exact (seaweed_month_zero h hon hm).2.2.2.1.le
+    · obtain rfl := Option.some.inj hu
+      have hon : i.addSeaweed = true := by simpa using hoff
+      exact (seaweed_harvest_vars_le h hon hW0 hW hminD hhl (hgr m hm) hm hm0).2.1
+  · split_ifs at hu with hoff hm0
+    · obtain rfl := Option.some.inj hu
+      have hon : i.addSeaweed = true := by simpa using hoff
+      subst hm0
+      exact (seaweed_month_zero h hon hm).2.2.2.2.le
+    · obtain rfl := Option.some.inj hu
+      have hon : i.addSeaweed = true := by simpa using hoff
+      exact (seaweed_harvest_vars_le h hon hW0 hW hminD hhl (hgr m hm) hm hm0).2.2
+  · -- usedArea
+    split_ifs at hu with hon
+    · obtain rfl := Option.some.inj hu
+      exact (seaweed_bounds h hon hm).2.2.2
+  · -- consumedKcals
+    simp only [reduceCtorEq] at hu
 
 /-- what `humanSum` reads for a resource is within `capH` -/
 theorem capH_valid (i : Inp K) (kind : Kind) (x : Var → K) (hw : WellFormed i)
